@@ -828,3 +828,69 @@ def gen_audit_as_case(rng, cid):
     case = {"id": cid, "kind": "audit_as", "graph": {"packages": pkgs}, "store_struct": store,
             "registry": {"users": [[1, "user1", "User 1"]], "packages": reg, "meta": meta}}
     return finalize(case)
+
+
+# ---------------------------------------------------------------------------
+# aggregate cases (C16)
+
+def gen_aggregate_case(rng, cid):
+    pkgs = gen_graph(rng)
+    versions = {}
+    for p in pkgs:
+        versions.setdefault(p["name"], []).append(vstr(p))
+    names = sorted(versions)
+    notes = Notes()
+    notes.n = 3000
+    nsrc = rng.choice([1, 2, 2, 3, 4])
+    shared = {"shared-a": {"description": "shared a", "implies": ["safe-to-run"]},
+              "shared-b": {"description": "shared b", "implies": ["shared-a"]}}
+    sources = []
+    structs = {}
+    conflict = rng.random() < 0.25
+    for k in range(nsrc):
+        url = f"https://src{k}.example/audits.toml"
+        table = {}
+        for nm, d in shared.items():
+            if rng.random() < 0.7:
+                table[nm] = copy.deepcopy(d)
+        if rng.random() < 0.5:
+            table[f"own-{k}"] = {"description": f"own {k}", "implies": rng.choice([[], ["safe-to-deploy"]])}
+        if conflict and k == nsrc - 1 and table:
+            nm = rng.choice(sorted(table))
+            r = rng.random()
+            if r < 0.4:
+                table[nm]["description"] = "a different text"
+            elif r < 0.7:
+                table[nm]["implies"] = ["safe-to-deploy"] if table[nm]["implies"] != ["safe-to-deploy"] else []
+            else:
+                table[nm] = {"description-url": "https://example.com/desc", "implies": table[nm]["implies"]}
+        # implies must be resolvable inside the file
+        for nm, d in table.items():
+            d["implies"] = [c for c in d.get("implies", []) if c in BUILTINS or c in table]
+        pcrits = BUILTINS + sorted(table)
+        f = {"criteria": table, "audits": {}, "wildcard_audits": {}, "trusted": {}}
+        for n in names:
+            if rng.random() < 0.6:
+                for a in gen_audits_for(rng, n, versions[n], pcrits, notes, True, 0.1):
+                    if rng.random() < 0.25:
+                        a["aggregated-from"] = [f"https://older{rng.randint(0, 2)}.example/a.toml"]
+                    f["audits"].setdefault(n, []).append(a)
+            if rng.random() < 0.25:
+                for w in gen_wildcards(rng, pcrits, notes):
+                    f["wildcard_audits"].setdefault(n, []).append(w)
+            if rng.random() < 0.15:
+                f["trusted"][n] = gen_wildcards(rng, pcrits, notes, trusted=True)
+        structs[url] = f
+        sources.append({"url": url, "text": render_audits_file(f)})
+    # a local project to evaluate "import the aggregate" vs "import every source"
+    store = gen_store(rng, pkgs, p_violation=0.0, with_imports=False, ncustom=rng.choice([0, 1, 2]))
+    cmap = {}
+    crits = _crits(store)
+    for nm in ["shared-a", "shared-b"] + [f"own-{k}" for k in range(nsrc)]:
+        if rng.random() < 0.6:
+            cmap[nm] = crit_list(rng, crits)
+    reg = {n: [{"version": v, "by": rng.choice([1, 2, 3]), "when": rng.choice(DATES[:6])}
+               for v in sorted(set(rng.sample(VERSIONS, 2) + [p["version"] for p in pkgs if p["name"] == n]))] for n in names}
+    return {"id": cid, "kind": "aggregate", "sources": sources, "sources_struct": structs,
+            "graph": {"packages": pkgs}, "local_struct": store, "cmap": cmap,
+            "registry": {"users": [[1, "user1", "User 1"], [2, "user2", "User 2"], [3, "user3", "User 3"]], "packages": reg, "meta": {}}}
